@@ -845,7 +845,7 @@ RULES = [r1_1, r1_2, r1_2b, r1_3, r1_4, r1_5, r1_6, r1_7, r1_8, r1_9, r1_10]
 
 CLAIM = (
     "R1.1 every sparse matrix assembled from a coordinate/CSR triple on a transform path passes shape= whose column "
-    "extent is over fitted state only (taint analysis from transform's arguments); R1.2 CSR row pointers advance by "
+    "extent is over fitted state only (taint analysis from transform's arguments) and is not `len()` of a dictionary that fit takes over unchanged from a constructor parameter (supplied indices need not be 0..n-1); R1.2 CSR row pointers advance by "
     "exactly the number of indices appended for the row; R1.3 each row loop terminates its row exactly once and has no "
     "loop-level continue/break/return; R1.4 every dictionary look-up in fitted vocabulary keyed by transform input is "
     "guarded by an enumerated idiom; R1.5 out-of-range characters are mapped to code 0; R1.6 dense result buffers have one row per item and a fitted width; R1.7 the tree vectorizer labels its directional column blocks in the order it stacks them; R1.8 block / chunk loops skip an iteration only under an empty-block test; R1.9 definite assignment (CFG dataflow) on every transform path and the non-compiled helpers it reaches; R1.10 histogram counts taken through pd.cut codes exclude the no-bin code -1."
